@@ -260,7 +260,7 @@ def db_fold(chk, out):
             "discard after divergence": "db:discard-events:replica", "allowance of a primary": "db:allowance-events:primary",
             "allowance accepted by a replica": "db:replica-allow", "commit on a replica": "db:commit-events:replica", "commit on a primary": "db:commit-events:primary",
             "restart": "db:restart", "duplicated delivery": "db:duplicate-delivery"}
-    zero = [k for k, c in need.items() if not ctr.get(c)]
+    zero = [k for k, c in need.items() if not ctr.get(c)] if not out.get("replay") else []
     if zero:
         raise MachineryFault("c07db: vacuous run, no %s (counters %s)" % (zero, {k: v for k, v in ctr.items() if k.startswith("db:")}))
     if ctr.get("db:steps-skipped", 0) * 2 > ctr.get("db:steps", 1):
@@ -274,11 +274,35 @@ def db_fold(chk, out):
         "(TLC counterexample of a weakened variant, TLC-simulated behaviour, or seeded random schedule; config rotates over sync/async, 1/2 acks, tx discarding, " \
         "1-3 replication workers, duplicated deliveries), evaluations = executed scheduler steps"
     chk.notes += out["notes"]
+    stale = "replication-db:replica-commits-before-primary:allowance-granted-before-discard"
+    if not out.get("replay") and not any(k[0] == stale for k in chk.known) and not any(v[0] == stale for v in chk.violations):
+        chk.notes.append({"model-drift": "the counterexample of the code variant DiscardKeepsAllowance (stale commit allowance after a discard) and the store-level repro "
+                                         "no longer reproduce on the real code: the finding in findings/C07.json can be marked fixed"})
+
+
+def db_replay(chk, wd, path):
+    """bin/check C07 --replay <file>: re-run the schedule of a database-level violation on the real code and judge the trace"""
+    obj = json.load(open(path))
+    rp = obj.get("replay") or {}
+    if not rp.get("schedule") or not rp.get("config"):
+        raise MachineryFault("%s is not the replay of a database-level violation (no schedule)" % path)
+    binp = vlib.go_build("c07db")
+    sp, tf = os.path.join(wd, "replay_sched.json"), os.path.join(wd, "replay_trace.ndjson")
+    json.dump([{"cfg": json.loads(rp["config"]), "steps": rp["schedule"]}], open(sp, "w"))
+    hout, _ = vlib.run_harness(binp, ["-seed", str(obj.get("seed", chk.seed)), "-runs", "0", "-schedules", sp, "-dir", os.path.join(wd, "replay_d"), "-out", tf], timeout=600)
+    tv = vlib.run_tlc("TraceReplicationDB", "TraceReplicationDB.cfg", workers=1, timeout=600, env={"VERIF_TRACE": tf}, tag="C07dbtv")
+    if tv.error and not tv.postcondition_failed:
+        raise MachineryFault("TraceReplicationDB: " + tv.error)
+    out = {"tlc": [(tv, "TraceReplicationDB (replay)")], "lines": open(tf).readlines(), "tv": tv, "harness": json.loads(hout), "notes": [], "schedules": [1],
+           "coverage": {}, "repro": {}, "replay": True}
+    db_fold(chk, out)
 
 
 def run(chk, args):
     thorough = chk.tier == "thorough"
     wd = vlib.scratch("C07")
+    if args.replay:
+        return db_replay(chk, wd, args.replay)
     # the database-level slice runs beside the store-level one
     dbout, dberr = {}, []
     dbbin = vlib.go_build("c07db")
